@@ -1810,8 +1810,31 @@ def einsum(spec, *ops):
         letters = sorted(set(ins.replace(",", "")))
         out = "".join(ch for ch in letters if ins.count(ch) == 1)
     ins = ins.split(",")
-    if len(ins) != len(ops) or "." in spec:
+    if len(ins) != len(ops):
         raise Unsupported(f"einsum spec {spec}")
+    if "." in spec:
+        # expand ellipses to explicit (upper-case) letters, right-aligned like numpy broadcasting
+        ELL = "ABCDEFGHIJKLMNOPQRSTUVWXYZ"
+        widths = []
+        for sub, o in zip(ins, ops):
+            if "..." in sub:
+                widths.append(o.ndim - (len(sub) - 3))
+            elif "." in sub:
+                raise Unsupported(f"einsum spec {spec}")
+        wmax = builtins.max(widths, default=0)
+        if wmax > len(ELL) or any(w < 0 for w in widths):
+            raise Unsupported(f"einsum spec {spec}")
+        new_ins = []
+        for sub, o in zip(ins, ops):
+            if "..." in sub:
+                w = o.ndim - (len(sub) - 3)
+                sub = sub.replace("...", ELL[wmax - w : wmax])
+            new_ins.append(sub)
+        ins = new_ins
+        if "..." in out:
+            out = out.replace("...", ELL[:wmax])
+        elif "->" not in spec:
+            raise Unsupported(f"einsum implicit output with ellipsis: {spec}")
     dims = {}
     for sub, o in zip(ins, ops):
         if len(sub) != o.ndim:
